@@ -20,6 +20,7 @@ def make_parametric_gate_prototype(
             name, matrix_factory, gate_parameters, num_qubits, is_hermitian
         )
 
+    _factory._is_builtin_gate_prototype = True  # type: ignore[attr-defined]
     return _factory
 
 
@@ -29,7 +30,14 @@ def builtin_gate_by_name(name) -> GateRef:
     Raises:
         KeyError: when there's no built-in gate for this name.
     """
-    return globals()[name]
+    gate_ref = globals()[name]
+    # Other module-level names (imports, helpers) are not gates.
+    if not (
+        isinstance(gate_ref, _gates.MatrixFactoryGate)
+        or getattr(gate_ref, "_is_builtin_gate_prototype", False)
+    ):
+        raise KeyError(name)
+    return gate_ref
 
 
 # --- non-parametric, single qubit gates ---
